@@ -110,6 +110,10 @@ def check(prop, tier, seed, replay):
             for r in range(rounds):
                 for k, s in enumerate(gen_streams(seed * 50 + r)):
                     msgs = [dict(kind=m["kind"], **({"del": sorted(m["del"]), "upd": sorted([list(q) for q in m["upd"]])} if m["kind"] == "notif" else {})) for m in s["msgs"]]
+                    for m in msgs:
+                        # the deletes of one notification in any order (state paths before and after config paths)
+                        if m["kind"] == "notif" and len(m["del"]) > 1:
+                            rnd.shuffle(m["del"])
                     first = True
                     for m in msgs:
                         if m["kind"] == "start":
